@@ -1,7 +1,7 @@
 (* C05: where debts (CancelScope._pending_uncancellations) can sit.
    DBH: a scope without host owes nothing, and a scope that owes something is cancelled itself or has a
-   cancelled ancestor (parent links, shields ignored).  Proved for every run of the generated domain in which a
-   delivery callback is only run for a cancelled scope (dlv_ok; see the note at the end). *)
+   cancelled ancestor (parent links, shields ignored).  One step preserves it in every state with the structural
+   invariant whose queued delivery callbacks belong to cancelled scopes (HdInv shows that they always do). *)
 From Coq Require Import ZArith Lia.
 From AV Require Import Base Machine ScopeFrames DeliverInv TreeInv DeliverAlive PotentialInv TreeStep KernelInv.
 
@@ -920,12 +920,12 @@ Proof.
   - (* CHandleWait *) apply Q. apply (proj1 (rr_ssame _ _ (ss_event_unwait s _ _))).
 Qed.
 
-Definition dlv_ok (s : st) (o : op) : bool :=
-  match o with ARun (HDeliver c) => s_cancelled (scopes s c) | _ => true end.
-
-Lemma DB_run_handle s h : Tree s -> dlv_ok s (ARun h) = true -> dbstep s (fst (run_handle s h)).
+Lemma DB_run_handle s h :
+  Tree s -> (forall c, h = HDeliver c -> In h (ready s) -> s_cancelled (scopes s c) = true) ->
+  dbstep s (fst (run_handle s h)).
 Proof.
-  intros T Hd D. unfold run_handle. destruct (negb _); [exact D|].
+  intros T Hd D. unfold run_handle. destruct (existsb (handle_eqb h) (ready s)) eqn:Ex; cbn [negb]; [|exact D].
+  apply existsb_handle in Ex.
   set (s1 := set_ready s (remove_first h (ready s))).
   assert (D1 : DBH s1) by (apply (DBH_dbm s); [exact D|apply dbm_same_scopes; reflexivity]).
   assert (T1 : Tree s1) by (apply (Tree_treq s); [exact T|apply treq_set_ready]).
@@ -933,14 +933,15 @@ Proof.
   - now apply DB_resume.
   - now apply DB_resume.
   - apply (DBH_dbm (deliver_top (set_running s1 None) s0)); [|apply dbm_same_scopes; reflexivity].
-    apply DB_deliver_top; [exact Hd|]. apply (DBH_dbm s1); [exact D1|apply dbm_same_scopes; reflexivity].
+    apply DB_deliver_top; [exact (Hd s0 eq_refl Ex)|]. apply (DBH_dbm s1); [exact D1|apply dbm_same_scopes; reflexivity].
   - apply (proj1 (rr_run_task_done s1 t)), D1.
   - apply (proj1 (rr_ssame _ _ (ss_fut_complete s1 f _))), D1.
   - apply (DBH_dbm (scope_timeout (set_running s1 None) s0)); [|apply dbm_same_scopes; reflexivity].
     apply DB_scope_timeout. apply (DBH_dbm s1); [exact D1|apply dbm_same_scopes; reflexivity].
 Qed.
 
-Theorem DB_step s o : Tree s -> dlv_ok s o = true -> dbstep s (fst (step s o)).
+Theorem DB_step s o :
+  Tree s -> (forall c, In (HDeliver c) (ready s) -> s_cancelled (scopes s c) = true) -> dbstep s (fst (step s o)).
 Proof.
   intros T Hd D. unfold step. destruct (actor o) as [t|].
   - destruct (negb (idle s t)); [exact D|]. destruct o; try (now apply DB_puppet_op). now apply DB_puppet_finish.
@@ -953,7 +954,7 @@ Proof.
     + cbn [fst]. apply (proj1 (rr_ssame _ _ (ss_task_cancel s t 0))), D.
     + cbn [fst]. apply (DBH_dbm (scope_cancel (set_running s None) c false)); [|apply dbm_same_scopes; reflexivity].
       apply DB_scope_cancel. apply (DBH_dbm s); [exact D|apply dbm_same_scopes; reflexivity].
-    + now apply DB_run_handle.
+    + apply DB_run_handle; [exact T| |exact D]. intros c -> Hin. now apply Hd.
     + destruct (Z.ltb dt 0); [exact D|]. cbn [fst]. apply (proj1 (rr_ssame _ _ (ss_tick s dt))), D.
 Qed.
 
